@@ -101,7 +101,7 @@ impl Check for C01 {
         ))
     }
     fn gen(s: &mut Src, _t: Tier) -> Case {
-        Case { program: prog::valid_program(s, &GenOpts { compact_chance: (1, 40), ..GenOpts::default() }) }
+        Case { program: prog::valid_program(s, &GenOpts { compact_chance: (1, 40), reject_chance: (1, 10), ..GenOpts::default() }) }
     }
     fn run(case: &Case) -> Verdict {
         let mut v = Verdict::new();
